@@ -29,26 +29,88 @@ let () = iter_lines (fun line ->
   | ["nx"; kind; i; bc; p] ->
     let f = if kind = "o2" then Gen_Open2N2.coq_GetNextBucketIndex else Gen_Open8.coq_GetNextBucketIndex in
     print_endline (string_of_z (f (z_of_string i) (z_of_string bc) (z_of_string p)))
-  | "tblm" :: kind :: n :: cap :: khs ->
-    (* table-level model: insert the keys (key:hash) in order into an empty 2^n-bucket table; dump buckets + bounds + finds *)
+  | "bops" :: "o2" :: _ :: _ :: toks ->
+    (* one BucketOpen2N2<3> bucket: generated AddCrt / Remove / UpdateMaxProbe / Clear; dump all bookkeeping bytes *)
+    let zf = (fun _ -> z_of_int 0) in
+    let (m0, s0) = Gen_Open2N2_ops.pvSetEmpty zf zf zf in
+    let st = ref (m0, s0, zf) in let bad = ref "" in
+    Stdlib.List.iter (fun tok -> if !bad = "" then begin
+      let (m, s, h) = !st in
+      let f = Stdlib.List.map z_of_string (Stdlib.List.tl (String.split_on_char ':' tok)) in
+      match tok.[0], f with
+      | 'A', [hc; lbc; pr] -> (match Gen_Open2N2_ops.coq_AddCrt m s h hc lbc pr (z_of_int 0) with
+          | Ok (((_, m'), s'), h') -> st := (m', s', h') | _ -> bad := "stuck")
+      | 'R', [j] -> (match Gen_Open2N2_ops.coq_Remove m s h (z_of_int (2 - int_of_z j)) with
+          | Ok (((_, m'), s'), h') -> st := (m', s', h') | _ -> bad := "stuck")
+      | 'U', [p] -> (match Gen_Open2N2_ops.coq_UpdateMaxProbe m s h p with Ok (_, m') -> st := (m', s, h) | _ -> bad := "stuck")
+      | _ -> let (m', s') = Gen_Open2N2_ops.coq_Clear m s h in st := (m', s', h) end) toks;
+    if !bad <> "" then print_endline !bad else begin
+      let (m, s, h) = !st in let g f i = string_of_z (f (z_of_int i)) in
+      Printf.printf "%s %s %s %s %s %s %s %s %s %s\n" (g m 0) (g m 1) (g s 0) (g s 1) (g s 2) (g h 0) (g h 1) (g h 2)
+        (string_of_z (Gen_Open2N2_ops.pvGetCount m s h)) (string_of_z (Gen_Open2N2_ops.pvGetMaxProbe m s h)) end
+  | "bops" :: (("n1" | "n1f") as knd) :: mcs :: l :: toks ->
+    let mc = z_of_string mcs in let rv = (knd = "n1") in
+    let st = ref (Gen_OpenN1_ops.pvSetEmpty mc (fun _ -> z_of_int 0)) in let bad = ref "" in
+    Stdlib.List.iter (fun tok -> if !bad = "" then begin
+      let d = !st in
+      let f = Stdlib.List.map z_of_string (Stdlib.List.tl (String.split_on_char ':' tok)) in
+      match tok.[0], f with
+      | 'A', [hc; _; _] -> (match Gen_OpenN1_ops.coq_AddCrt rv mc d hc (z_of_int 0) with Ok (_, d') -> st := d' | _ -> bad := "stuck")
+      | 'R', [j] -> (match Gen_OpenN1_ops.coq_Remove rv mc d j with Ok (_, d') -> st := d' | _ -> bad := "stuck")
+      | 'U', [p] -> (match Gen_OpenN1.coq_UpdateMaxProbe mc d p with Ok (_, d') -> st := d' | _ -> bad := "stuck")
+      | _ -> st := Gen_OpenN1_ops.coq_Clear mc d end) toks;
+    if !bad <> "" then print_endline !bad else begin
+      let d = !st in
+      for i = 0 to int_of_z mc do Printf.printf "%s " (string_of_z (d (z_of_int i))) done;
+      Printf.printf "%s %s\n" (string_of_z (Gen_OpenN1_ops.pvGetCount rv mc d)) (string_of_z (Gen_OpenN1.coq_GetMaxProbe mc d (z_of_string l))) end
+  | "tblm" :: kind :: n :: _ :: toks ->
+    (* table-level model: insertions (key:hash) and removals (-key) from the table of freshly constructed buckets;
+       dump buckets + bounds + count bits + finds *)
     let nz = z_of_string n and ni = int_of_string n in
     let bc = z_of_zarith (Z.shift_left Z.one ni) in
-    let pairs = Stdlib.List.map (fun kh -> match String.split_on_char ':' kh with [k; h] -> (z_of_string k, z_of_string h) | _ -> failwith "kh") khs in
-    let h k = let rec go = function [] -> z_of_int 0 | (k', hc) :: r -> if string_of_z k' = string_of_z k then Gen_BucketBase.coq_GetStartBucketIndex hc bc else go r in go pairs in
-    let capn = nat_of_int (int_of_string cap) in
-    let empty = { OpenTable.bk = (fun _ -> []); OpenTable.bd = (fun _ -> (fun _ -> z_of_int 0)) } in
-    let mc = z_of_int 7 in
-    let (next, upd, dec) =
-      if kind = "o2" || kind = "o2f" then (Gen_Open2N2.coq_GetNextBucketIndex, OpenInstances.upd2, Gen_Open2N2.pvGetMaxProbe)
-      else (Gen_Open8.coq_GetNextBucketIndex, OpenInstances.updN mc, (fun st -> Gen_OpenN1.coq_GetMaxProbe mc st nz)) in
+    let ops = Stdlib.List.map (fun t -> if t.[0] = '-' then (false, z_of_string (String.sub t 1 (String.length t - 1)), z_of_int 0)
+      else match String.split_on_char ':' t with [k; h] -> (true, z_of_string k, z_of_string h) | _ -> failwith "kh") toks in
+    let pairs = Stdlib.List.filter_map (fun (a, k, h) -> if a then Some (k, h) else None) ops in
+    let hcode k = let rec go = function [] -> z_of_int 0 | (k', hc) :: r -> if string_of_z k' = string_of_z k then hc else go r in go pairs in
+    let h k = Gen_BucketBase.coq_GetStartBucketIndex (hcode k) bc in
     let full = ref false in
-    let st = Stdlib.List.fold_left (fun s (k, _) -> match OpenTable.add nz next capn h upd s k with Some s' -> s' | None -> full := true; s) empty pairs in
-    let buf = Buffer.create 256 in
-    for i = 0 to (1 lsl ni) - 1 do
-      let items = Stdlib.List.sort compare (Stdlib.List.map (fun z -> Z.to_string (zarith_of_z z)) (OpenTable.bk st (z_of_int i))) in
-      if items <> [] || string_of_z (dec (OpenTable.bd st (z_of_int i))) <> "0" then
-        Buffer.add_string buf (Printf.sprintf "%d:[%s]:%s;" i (Stdlib.String.concat "," (Stdlib.List.sort (fun a b -> compare (Z.of_string a) (Z.of_string b)) items)) (string_of_z (dec (OpenTable.bd st (z_of_int i)))))
-    done;
-    let allfound = Stdlib.List.for_all (fun (k, _) -> OpenTable.find nz next h dec st k) pairs in
-    Printf.printf "%s found=%b full=%b\n" (Buffer.contents buf) allfound !full
+    let present = Hashtbl.create 64 and removed = Hashtbl.create 64 in
+    let dump bkf decf cntf =
+      let buf = Buffer.create 256 in
+      for i = 0 to (1 lsl ni) - 1 do
+        let items = Stdlib.List.map (fun z -> Z.to_string (zarith_of_z z)) (bkf (z_of_int i)) in
+        if items <> [] || string_of_z (decf (z_of_int i)) <> "0" then
+          Buffer.add_string buf (Printf.sprintf "%d:[%s]:%s:%s;" i (Stdlib.String.concat "," (Stdlib.List.sort (fun a b -> compare (Z.of_string a) (Z.of_string b)) items))
+            (string_of_z (decf (z_of_int i))) (string_of_z (cntf (z_of_int i))))
+      done; Buffer.contents buf in
+    let locate bkf k = let r = ref (-1) in
+      for i = 0 to (1 lsl ni) - 1 do if !r < 0 && Stdlib.List.exists (fun x -> string_of_z x = string_of_z k) (bkf (z_of_int i)) then r := i done; !r in
+    let z0 = z_of_int 0 in
+    if kind = "o2" || kind = "o2f" then begin
+      let st = Stdlib.List.fold_left (fun s (a, k, _) ->
+        if a then (match OpenInstances.o2_add nz h s k (((hcode k, nz), z0), z0) with
+          | Some s' -> Hashtbl.replace present (string_of_z k) k; Hashtbl.remove removed (string_of_z k); s' | None -> full := true; s)
+        else (let b = locate (OpenTable.bk s) k in
+          if b < 0 then s else begin
+            Hashtbl.remove present (string_of_z k); Hashtbl.replace removed (string_of_z k) k;
+            let len = Stdlib.List.length (OpenTable.bk s (z_of_int b)) in
+            OpenTable.remove BucketOps.O2.remP s (z_of_int b) k (((z_of_int (3 - len), z0), z0), z0) end)) OpenInstances.o2_empty ops in
+      let ok = Hashtbl.fold (fun _ k acc -> acc && OpenInstances.o2_find nz h st k) present true
+            && Hashtbl.fold (fun _ k acc -> acc && not (OpenInstances.o2_find nz h st k)) removed true in
+      Printf.printf "%s found=%b full=%b badfull=false\n"
+        (dump (OpenTable.bk st) (fun i -> BucketOps.O2.dec (OpenTable.bd st i)) (fun i -> BucketOps.O2.cnt (OpenTable.bd st i))) ok !full
+    end else begin
+      let mc = z_of_int 7 in
+      let st = Stdlib.List.fold_left (fun s (a, k, _) ->
+        if a then (match OpenInstances.n1_add false mc nz h s k (((hcode k, nz), z0), z0) with
+          | Some s' -> Hashtbl.replace present (string_of_z k) k; Hashtbl.remove removed (string_of_z k); s' | None -> full := true; s)
+        else (let b = locate (OpenTable.bk s) k in
+          if b < 0 then s else begin
+            Hashtbl.remove present (string_of_z k); Hashtbl.replace removed (string_of_z k) k;
+            OpenTable.remove (BucketOps.N1.remP false mc) s (z_of_int b) k (((z0, z0), z0), z0) end)) (OpenInstances.n1_empty mc) ops in
+      let ok = Hashtbl.fold (fun _ k acc -> acc && OpenInstances.n1_find mc nz h st k) present true
+            && Hashtbl.fold (fun _ k acc -> acc && not (OpenInstances.n1_find mc nz h st k)) removed true in
+      Printf.printf "%s found=%b full=%b badfull=false\n"
+        (dump (OpenTable.bk st) (fun i -> OpenInstances.n1_dec mc nz (OpenTable.bd st i)) (fun i -> BucketOps.N1.cnt false mc (OpenTable.bd st i))) ok !full
+    end
   | _ -> print_endline "?")
